@@ -13,6 +13,7 @@ def run(rep):
     m1(rep, w)
     m2(rep, w)
     m3(rep, w)
+    c08.x7(rep, w)     # an ImportError that was delivered to a handler must not be followed by further pushes in the import handler
 
 
 def m1(rep, w):
